@@ -33,8 +33,9 @@ ASSUMPTIONS = [
     'column (variant lazypos) the model is from_data_lazy_pos = the eager serialiser (C03_vcf_pos_paths_agree)',
     'reread tables (Model fmt DelimL / VcfL): an unmodified lazily read table, however selected and concatenated, is passed '
     'through as the canonical text of the selected records in the selected order (model = spec for that call)',
-    'SAM without optional tags: the Spec takes the eager writer\'s 12-column line (trailing TAB) as canonical; the SAM-standard '
-    'spelling without it (lazy path since /repo 36989fd) reads back as the same row (C03_sam_empty_tags_spellings)']
+    'SAM without optional tags: canonical (Spec ser_sam, Model sam_join_fields, both write paths since /repo 81bde1f) is the '
+    'SAM-standard line without a TAB before the empty tags cell; the old eager spelling (trailing TAB) is still accepted by the '
+    'reader (C03_sam_empty_tags_spellings) and is written by the harness into k_alt_file and read with bnp.open on every such case']
 PARTIAL = ['C03_int_text_partial / C03_fasta_partial / C03_write_pieces_partial are about the code BEFORE the repairs (history); the '
            'code at /repo HEAD is covered without those guards by C03_int_text_fixed + C03_cell_text_current, C03_fasta_fixed, '
            'C03_write_pieces_head',
@@ -549,10 +550,9 @@ def observe(case):
             except Exception as e:
                 import traceback
                 out['read_err'] = '%s: %s | %s' % (type(e).__name__, str(e)[:160], traceback.format_exc(limit=-2)[-300:])
-        # the SAM-standard spelling of the same table (no TAB before absent optional tags): must read back equal
+        # the OLD eager spelling of the same table (12 columns: a TAB before absent optional tags) must still read back equal
         if fmt == 'sam' and err == 0 and rows and any(r[-1] == '' for r in rows):
-            alt = b''.join(('\t'.join(_cell_text(k, v, False) for k, v in zip(kinds[:-1], r[:-1]))
-                            + ('\t' + r[-1] if r[-1] else '') + '\n').encode('latin1') for r in rows)
+            alt = b''.join(('\t'.join(_cell_text(k, v, False) for k, v in zip(kinds, r)) + '\n').encode('latin1') for r in rows)
             apath = os.path.join(d, 'alt.sam')
             open(apath, 'wb').write(alt)
             out['alt'] = alt.hex()
@@ -655,6 +655,8 @@ def _fmt_term(case):
         return 'Fastq'
     if fmt == 'vcf':
         return {'union': 'VcfU', 'lazy': 'VcfL', 'reread': 'VcfL'}.get(case['variant'], 'Vcf')
+    if fmt == 'sam':
+        return 'Sam'
     return 'DelimL' if case['variant'] == 'reread' else 'Delim'
 
 
@@ -741,7 +743,7 @@ def explain(case, o):
 
 def distribution(cases, obs):
     d = dict(fmt={}, variant={}, rows={}, pieces={}, gz=0, append_sessions=0, stream_calls=0, empty_pieces=0, edge_ints=0,
-             errors={}, read_failures=0, fasta_widths={}, alphabets={}, sam_standard_spelling_reads=0, reread_tables=0, concat_calls=0, signed_zero_columns=0)
+             errors={}, read_failures=0, fasta_widths={}, alphabets={}, sam_old_spelling_reads=0, reread_tables=0, concat_calls=0, signed_zero_columns=0)
     for c, o in zip(cases, obs):
         def inc(m, k):
             m[str(k)] = m.get(str(k), 0) + 1
@@ -764,7 +766,7 @@ def distribution(cases, obs):
         if isinstance(o, dict) and not o.get('err') and not o.get('read_ok'):
             d['read_failures'] += 1
         if isinstance(o, dict) and 'alt' in o:
-            d['sam_standard_spelling_reads'] += 1
+            d['sam_old_spelling_reads'] += 1
         d['reread_tables'] += c['variant'] == 'reread'
         d['concat_calls'] += sum(1 for s_ in c['hist'] for cc in s_['calls'] if cc.get('concat'))
         for j, kk in enumerate(KINDS[c['fmt']]):
@@ -830,6 +832,8 @@ def _ref_chunk(case, rows, T):
     out = ''
     for r in rows:
         cells = [_cell_text(k, (v + 1 if (fmt == 'vcf' and j == 1) else v), pinned) for j, (k, v) in enumerate(zip(kinds, r))]
+        if fmt == 'sam' and cells[-1] == '':
+            cells = cells[:-1]                  # SAM: no TAB before absent optional tags
         out += '\t'.join(cells) + '\n'
     return 0, out
 
